@@ -261,14 +261,15 @@ const (
 
 // genReader supplies prefix, then up to 256 MiB of a tag-free pattern.
 type genReader struct {
-	mu      sync.Mutex
-	prefix  []byte
-	pattern []byte
-	maxRead int
-	off     int64 // bytes of pattern supplied
-	pulled  int64 // all bytes supplied
-	maxReq  int
-	cut     bool
+	mu       sync.Mutex
+	prefix   []byte
+	pattern  []byte
+	maxRead  int
+	hardStop int64 // 0 = genHardStop
+	off      int64 // bytes of pattern supplied
+	pulled   int64 // all bytes supplied
+	maxReq   int
+	cut      bool
 }
 
 // stats returns (bytes pulled, largest single request, cut off by the harness).
@@ -296,7 +297,11 @@ func (g *genReader) Read(p []byte) (int, error) {
 		g.pulled += int64(n)
 		return n, nil
 	}
-	if g.pulled >= genHardStop {
+	hs := g.hardStop
+	if hs == 0 {
+		hs = genHardStop
+	}
+	if g.pulled >= hs {
 		g.cut = true
 		return 0, errCutOff
 	}
